@@ -196,6 +196,80 @@ theorem never_save_in_save_raises {env : Env} {t : String} {p : Plugin} (hr : Re
     have hs' : t ∈ env.save := by simpa using hs
     simp [shouldSaveFor, hpol, shouldSave, hs'] at hb
 
+/-- source `aa` (ALWAYS) ← multi-output (`bb` TARGET, `cc` EXPLICIT) ← `dd` (NEVER) -/
+def exGraph : Graph :=
+  [⟨[("aa", .always)], []⟩, ⟨[("bb", .target), ("cc", .explicit)], ["aa"]⟩, ⟨[("dd", .never)], ["bb"]⟩]
+
+/-- `aa` is stored in the only frontend, `dd` is requested, `cc` is listed in `save=` -/
+def exEnv : Env := ⟨exGraph, [{ complete := ["aa"] }], ["dd"], ["cc"], {}, {}, {}⟩
+
+/-! ### several targets merged by the temporary plugin of `get_iter` (defects D22, D23 and their fixes) -/
+
+/-- a requested non-temporary type counts as a target for its save policy (both rules) -/
+theorem plain_targets_are_targets (env : Env) {t : String} (ht : t ∈ env.targets) (hn : isTemp t = false) :
+    t ∈ finalTargets env := by
+  unfold finalTargets
+  split
+  · simp only [List.mem_flatMap]
+    exact ⟨t, ht, by simp [hn]⟩
+  · exact ht
+
+/-- fixed rule: the data types merged by a requested temporary plugin count as targets -/
+theorem merged_targets_are_targets (env : Env) (h : env.rules.tempDepsAreTargets = true) {t d : String} {p : Plugin}
+    (ht : t ∈ env.targets) (htemp : isTemp t = true) (hp : pluginFor env.g t = some p) (hd : d ∈ p.dependsOn) :
+    d ∈ finalTargets env := by
+  unfold finalTargets
+  simp only [h, if_true, List.mem_flatMap]
+  exact ⟨t, ht, by simp [htemp, hp, hd]⟩
+
+/-- Full-strength statement for TARGET-policy types: a non-temporary type that counts as a target, is computed
+in a complete request, has policy TARGET and is accepted by some writable frontend gets a saver. -/
+theorem target_policy_saved {env : Env} {c : Components} (h : getComponents env = .ok c)
+    (hp : env.partialReq = false) {d : String} {p : Plugin} (hd : d ∈ finalTargets env) (hc : d ∈ c.plugins)
+    (ht : isTemp d = false) (hpf : pluginFor env.g d = some p) (hpol : p.policy d = some .target)
+    (hw : writableFor env d ≠ []) : d ∈ c.savers.map (·.1) := by
+  refine (savers_iff_policy h hp d).2 ⟨d, hc, ht, p, hpf, pluginFor_provides hpf, ((computed_iff h d).1 hc).2, ?_, hw⟩
+  refine ⟨.target, hpol, ?_⟩
+  simp only [policySays, List.contains_eq_mem, decide_eq_true_eq]
+  exact hd
+
+/-- the request `get_iter` makes for `get_array(run, ("bb", "dd"))`: `bb` (TARGET policy) and `dd` merged by
+`_temp_x`, only the source `aa` is stored -/
+def mergedEnv (rules : Rules) : Env :=
+  ⟨exGraph ++ [⟨[("_temp_x", .explicit)], ["bb", "dd"]⟩], [{ complete := ["aa"] }], ["_temp_x"], [], {}, {}, rules⟩
+
+/-- D22, old rule (`targets` handed to `_target_should_be_saved`): the requested TARGET-policy type `bb` is
+computed in a complete request, a writable frontend accepts it, and it still gets no saver — the statement
+`target_policy_saved` with "`d` is one of the requested types" in place of `d ∈ finalTargets env` fails. -/
+theorem target_policy_old_counterexample :
+    ∃ c, getComponents (mergedEnv { tempDepsAreTargets := false }) = .ok c ∧
+      (mergedEnv { tempDepsAreTargets := false }).partialReq = false ∧ "bb" ∈ c.plugins ∧
+      writableFor (mergedEnv { tempDepsAreTargets := false }) "bb" ≠ [] ∧ "bb" ∉ c.savers.map (·.1) :=
+  ⟨⟨[("aa", 0)], ["_temp_x", "bb", "dd"], [], ["_temp_x"]⟩, by rfl, by decide, by decide, by decide, by decide⟩
+
+/-- ... and with the fixed rule the same request saves it -/
+example : getComponents (mergedEnv {}) = .ok ⟨[("aa", 0)], ["_temp_x", "bb", "dd"], [("bb", [0])], ["_temp_x"]⟩ := by rfl
+
+/-- fixed rule: `*` in `forbid_creation_of` never applies to a temporary merge plugin -/
+theorem star_spares_temp (env : Env) (h : env.rules.starSkipsTemp = true) {t : String} (ht : isTemp t = true) :
+    starForbids env t = false := by
+  simp [starForbids, h, ht]
+
+/-- `bb` and `dd` are stored, creation of anything is forbidden -/
+def starEnv (rules : Rules) : Env :=
+  ⟨exGraph ++ [⟨[("_temp_x", .explicit)], ["bb", "dd"]⟩], [{ complete := ["bb", "dd"] }], ["_temp_x"], [], {},
+   { forbid := ["*"] }, rules⟩
+
+/-- D23, old rule: both merged types are stored, yet the request fails because the temporary plugin itself
+"may not be created" -/
+theorem forbid_star_old_counterexample :
+    loadable (starEnv { starSkipsTemp := false }) "bb" = true ∧ loadable (starEnv { starSkipsTemp := false }) "dd" = true ∧
+      getComponents (starEnv { starSkipsTemp := false }) = .error .dataNotAvailable :=
+  ⟨by decide, by decide, by rfl⟩
+
+/-- ... and with the fixed rule the two stored types are simply loaded -/
+example : getComponents (starEnv {}) = .ok ⟨[("bb", 0), ("dd", 0)], ["_temp_x"], [], ["_temp_x"]⟩ := by rfl
+
 /-! ### the recursion bound of the model -/
 
 /-- On acyclic graphs (decidable witness: the list order is a topological order) the model never reports the
@@ -206,13 +280,6 @@ theorem acyclic_no_recursion_error (env : Env) (h : topoOrdered env.g = true) :
   getComponents_no_rt h
 
 /-! ### non-vacuity: concrete instances of the hypotheses and of both outcomes -/
-
-/-- source `aa` (ALWAYS) ← multi-output (`bb` TARGET, `cc` EXPLICIT) ← `dd` (NEVER) -/
-def exGraph : Graph :=
-  [⟨[("aa", .always)], []⟩, ⟨[("bb", .target), ("cc", .explicit)], ["aa"]⟩, ⟨[("dd", .never)], ["bb"]⟩]
-
-/-- `aa` is stored in the only frontend, `dd` is requested, `cc` is listed in `save=` -/
-def exEnv : Env := ⟨exGraph, [{ complete := ["aa"] }], ["dd"], ["cc"], {}, {}, {}⟩
 
 example : topoOrdered exGraph = true := by decide
 example : exEnv.partialReq = false := by decide
@@ -235,10 +302,4 @@ example : getComponents { exEnv with save := ["dd"] } = .error .valueError := by
 /-- two frontends: the faster storage type is asked first, the readonly one gets no saver -/
 example : getComponents ⟨exGraph, [{ complete := ["aa"], storageType := 2 }, { complete := ["aa", "bb"], readonly := true }],
     ["dd"], ["cc"], {}, {}, {}⟩ = .ok ⟨[("bb", 1)], ["dd"], [], ["dd"]⟩ := by rfl
-/-- the temporary merge plugin under both values of the `_temp_` rules (D22): `bb` is a TARGET-policy target -/
-example : getComponents ⟨exGraph ++ [⟨[("_temp_x", .explicit)], ["bb", "dd"]⟩], [{ complete := ["aa"] }], ["_temp_x"], [], {}, {},
-    { tempDepsAreTargets := false }⟩ = .ok ⟨[("aa", 0)], ["_temp_x", "bb", "dd"], [], ["_temp_x"]⟩ := by rfl
-example : getComponents ⟨exGraph ++ [⟨[("_temp_x", .explicit)], ["bb", "dd"]⟩], [{ complete := ["aa"] }], ["_temp_x"], [], {}, {},
-    { tempDepsAreTargets := true }⟩ = .ok ⟨[("aa", 0)], ["_temp_x", "bb", "dd"], [("bb", [0])], ["_temp_x"]⟩ := by rfl
-
 end Strax.C11
